@@ -23,3 +23,46 @@ static inline void osmo_store32be(uint32_t x, void *p)
 	q[2] = (x >> 8) & 0xff;
 	q[3] = x & 0xff;
 }
+
+/* the other fixed-width loads/stores of <osmocom/core/bit16gen.h>, bit32gen.h, bit64gen.h: a
+ * refactoring of trx_if.c may legitimately use them */
+static inline uint16_t osmo_load16be(const void *p)
+{
+	const uint8_t *q = (const uint8_t *) p;
+	return (uint16_t) (((uint16_t) q[0] << 8) | (uint16_t) q[1]);
+}
+
+static inline uint16_t osmo_load16le(const void *p)
+{
+	const uint8_t *q = (const uint8_t *) p;
+	return (uint16_t) (((uint16_t) q[1] << 8) | (uint16_t) q[0]);
+}
+
+static inline void osmo_store16be(uint16_t x, void *p)
+{
+	uint8_t *q = (uint8_t *) p;
+	q[0] = (x >> 8) & 0xff;
+	q[1] = x & 0xff;
+}
+
+static inline void osmo_store16le(uint16_t x, void *p)
+{
+	uint8_t *q = (uint8_t *) p;
+	q[1] = (x >> 8) & 0xff;
+	q[0] = x & 0xff;
+}
+
+static inline uint32_t osmo_load32le(const void *p)
+{
+	const uint8_t *q = (const uint8_t *) p;
+	return ((uint32_t) q[3] << 24) | ((uint32_t) q[2] << 16) | ((uint32_t) q[1] << 8) | (uint32_t) q[0];
+}
+
+static inline void osmo_store32le(uint32_t x, void *p)
+{
+	uint8_t *q = (uint8_t *) p;
+	q[3] = (x >> 24) & 0xff;
+	q[2] = (x >> 16) & 0xff;
+	q[1] = (x >> 8) & 0xff;
+	q[0] = x & 0xff;
+}
